@@ -173,6 +173,27 @@ def extra(ctx, avh, avm, tier, seed):
             f["deep"] = True
             unknown.append(f)
 
+    # ------------------------------------------------------------------ type mix-up probe (check_version_compatibility after move / copy)
+    mxdir = os.path.join(PW, "mixup")
+    os.makedirs(mxdir, exist_ok=True)
+    rc, out, dt = lib.run([avh, "panics", "mixup", DUMP, "0", mxdir], cwd=PW, timeout=1500)
+    m = re.search(r"STAT mixup dynamic: scenarios tried=(\d+) panics confirmed=(\d+)", out)
+    ctx.oblige("mixup:probe ran (static search over the specification + scenarios through the public API)", rc == 0 and bool(m), out[-300:])
+    if m:
+        ctx.coverage["mixup_scenarios"] = int(m.group(1))
+        ctx.coverage["mixup_panics"] = int(m.group(2))
+        ctx.coverage["evaluations"] = ctx.coverage.get("evaluations", 0) + int(m.group(1))
+    for l in out.split("\n"):
+        if l.startswith("MIXUP-SCRIPT "):
+            spath = l.split(None, 1)[1].strip()
+            for f in replay_fails(avh, spath):
+                f.setdefault("script", spath)
+                k = next((e for e in known if e.get("status") == "known" and panics_known_match(e, f)), None)
+                if k:
+                    hit.setdefault(k["key"], (k, f))
+                else:
+                    unknown.append(f)
+
     # ------------------------------------------------------------------ fixed findings stay fixed
     for e in lib.load_known(PID):
         if e.get("status") != "fixed" or e.get("match", {}).get("stream") != "panics":
